@@ -105,7 +105,20 @@ class Tracer:
         k = nd["k"]
         if k == "CompoundStmt":
             out = []
-            for c in fn.kids(sid):
+            kids = fn.kids(sid)
+            for i, c in enumerate(kids):
+                cn = fn.n(c)
+                if cn["k"] == "IfStmt" and cn.get("else") is None and not cn.get("constexpr") and self._ends_in_return(fn, cn["then"]):
+                    # early return: everything after it happens only when the condition is false
+                    pre = self.expr_tokens(fn, cn["cond"], stream, env, vt, depth)
+                    t = self.walk(fn, cn["then"], stream, env, vt, depth)
+                    rest = []
+                    for c2 in kids[i + 1:]:
+                        rest += self.walk(fn, c2, stream, env, vt, depth)
+                    out += pre
+                    if t or rest:
+                        out.append(["if", self.npath(fn, fn.term(cn["cond"]), env, vt), t, rest])
+                    return out
                 out += self.walk(fn, c, stream, env, vt, depth)
             return out
         if k == "IfStmt":
@@ -159,6 +172,15 @@ class Tracer:
         if k in ("BreakStmt", "ContinueStmt", "NullStmt"):
             return []
         return self.expr_tokens(fn, sid, stream, env, vt, depth)
+
+    def _ends_in_return(self, fn, sid):
+        nd = fn.n(sid)
+        if nd["k"] == "ReturnStmt":
+            return True
+        if nd["k"] == "CompoundStmt":
+            ks = fn.kids(sid)
+            return bool(ks) and fn.n(ks[-1])["k"] == "ReturnStmt"
+        return False
 
     def calls_postorder(self, fn, eid):
         out = []
